@@ -748,7 +748,7 @@ def run(ctx):
                'the second byte of an adapter sequence is read from the transport buffer only if it is buffered: otherwise '
                'the read goes beyond the received data (stale byte, or out of bounds when the buffer is full)')
     import rules.C04 as c04
-    ctx.borrow(c04.run, {'C04.R2': 'C20.R11', 'C04.R6': 'C20.R12'},
+    ctx.borrow(c04.run, {'C04.R2': 'C20.R11', 'C04.R6': 'C20.R12', 'C04.R4': 'C20.R34'},
                'a request that is taken out of the queue and then dropped, or a wait loop with another exit, leaves a '
                'client thread blocked forever or working on freed memory')
     import rules.C09 as _c09
